@@ -3,6 +3,7 @@
 package cache
 
 import (
+	"encoding/json"
 	"fmt"
 	"os"
 	"testing"
@@ -30,10 +31,26 @@ func TestVerifC04Dbg(t *testing.T) {
 			}
 		}
 	}
-	for _, ev := range []vkC04Ev{{Kind: "al", TTL: 30}, {Kind: "purge"}, {Kind: "p", TTL: 7}, {Kind: "adv", D: 1}} {
+	hist := []vkC04Ev{{Kind: "al", TTL: 30}, {Kind: "purge"}, {Kind: "p", TTL: 7}, {Kind: "adv", D: 1}}
+	if h := os.Getenv("VERIF_DBG_HIST"); h != "" {
+		// a history of the hist alphabet as JSON; every step prints outcome, verdict and the raw entries
+		hist = nil
+		if err := json.Unmarshal([]byte(h), &hist); err != nil {
+			t.Fatal(err)
+		}
+	}
+	for _, ev := range hist {
 		v, o := w.apply(ev)
 		fmt.Println(ev, "->", o, v)
 		show(ev.String())
+		for _, n := range []string{vkBxName, vkBzName, vkAlxName, vkAlzName} {
+			if e := w.rawEntry(n); e != nil {
+				fmt.Printf("   raw %s rem=%v ttl=%v cutUntil=%v wireServe=%b\n", n, e.remaining(vtime.Now()).Round(time.Millisecond), e.ttl, !e.cutUntil.IsZero(), e.wireServe)
+			}
+		}
+	}
+	if os.Getenv("VERIF_DBG_HIST") != "" {
+		return
 	}
 	{
 		q := vkQ{Name: vkAlName, Type: dns.TypeA, Class: dns.ClassINET}
